@@ -17,7 +17,7 @@ RULE = ("nodes_connected, get_coord_neighbors, coord_degrees, gen_connected_comp
         "structures up to 15x15 incl. oblong. non-trivial & distinct = distinct connection structures with >= 1 edge")
 ASSUMPTIONS = ["from_adj_list only on square mazes whose highest row and column index occur in a connection (documented precondition)"]
 NSHARDS = {"quick": 16, "thorough": 16}
-THRESHOLDS = {"quick": {
+THRESHOLDS = {"quick": {"c13:same-object-after-edit:in-place": 100, "c13:same-object-after-edit:re-bound": 100, 
     "c13:nodes_connected": 1000, "c13:neighbors": 1000, "c13:degrees": 1000, "c13:component": 1000, "c13:valid-path": 1000,
     "c13:invalid-path:broken": 300, "c13:invalid-path:oob-neg": 300, "c13:invalid-path:oob-big": 300, "c13:empty-path": 1000, "c13:one-cell-path": 3000, "c13:forks-on-walks": 300, "c13:is_connection-large-grid": 12,
     "c13:adj-list": 1000, "c13:is_connection": 1000, "c13:from_adj_list": 300, "c13:oblong": 100, "c13:forks": 500,
@@ -64,12 +64,13 @@ def _any(c):
     return (np.array(c), tuple(c), list(c), np.array(c, dtype=np.int8), tuple(np.int64(x) for x in c))[k]
 
 
-def check_structure(ctx, cl, case, full: bool, rng):
+def check_structure(ctx, cl, case, full: bool, rng, maze=None):
     from maze_dataset.token_utils import connection_list_to_adj_list, is_connection
 
     g = Graph(cl)
     R, C = g.R, g.C
-    maze = lib.lattice(cl)
+    if maze is None:
+        maze = lib.lattice(cl)
     cells = ref.all_cells(R, C)
     if R != C:
         ctx.tally("c13:oblong")
@@ -288,10 +289,34 @@ def run(ctx):
             R = C = int(rng.integers(2, 16))
         fam, cl = ref.random_structure(R, C, rng)
         case = dict(kind="big", family=fam, shape=(R, C), cl=cl)
-        g, _ = check_structure(ctx, cl, case, False, rng)
+        g, mz = check_structure(ctx, cl, case, False, rng)
         ctx.nontrivial(R, C, cl)
         for _ in range(3):
             _forks(ctx, cl, g, case, rng)
+        # the same object after its connection structure changed (walls opened / closed in place, or the array re-bound the way
+        # gen_dfs_percolation does): every view is judged again against the structure the object holds now
+        slots = ref.lattice_edge_slots(R, C)
+        if slots and j % 3 == 0:
+            for step in range(2):
+                how = "in-place" if (j // 3 + step) % 2 == 0 else "re-bound"
+                try:
+                    if how == "in-place":
+                        for i in rng.choice(len(slots), size=min(len(slots), int(rng.integers(1, 4))), replace=False):
+                            d, r, c = slots[int(i)]
+                            mz.connection_list[d, r, c] = not mz.connection_list[d, r, c]
+                    else:
+                        new = np.array(mz.connection_list)
+                        for i in rng.choice(len(slots), size=min(len(slots), int(rng.integers(1, 4))), replace=False):
+                            d, r, c = slots[int(i)]
+                            new[d, r, c] = not new[d, r, c]
+                        mz.__dict__["connection_list"] = new
+                except (ValueError, TypeError) as e:
+                    ctx.tally(f"c13:edit-not-possible:{type(e).__name__}")
+                    break
+                cl2 = np.array(mz.connection_list, dtype=bool)
+                ctx.tally(f"c13:same-object-after-edit:{how}")
+                g2, _ = check_structure(ctx, cl2, dict(kind="big-edited", how=how, family=fam, shape=(R, C), cl_before=cl, cl=cl2), False, rng, maze=mz)
+                _forks(ctx, cl2, g2, dict(kind="big-edited", how=how, shape=(R, C), cl=cl2), rng)
         if j < 2:
             ctx.sample(case)
     # the batch edge test on large grids with the int8 edge arrays the library itself produces (row + col past 127)
